@@ -15,7 +15,7 @@ from core import imp, run_model, enc_table, enc_str, make_licensing, outcome_of,
 import gen
 import parsing
 
-RULE = ('seeded tables of 1-4 entries (keys of 1-3 words, 0-2 aliases written with other case / doubled spaces, chosen from a '
+RULE = ('seeded tables of 1-4 entries (keys of 1-3 words, 0-2 aliases written with other case / doubled spaces / tabs, a third with a directed collision, chosen from a '
         'small colliding pool so that about half are ambiguous), each in every entry order (<= 24 permutations); accepted '
         'tables are queried through all three representations; non-trivial = the table has >= 2 entries; distinct by the '
         'ordered table')
@@ -56,6 +56,16 @@ def gen_table(rng):
             a = rng.choice([a, a.upper(), a.replace(' ', '   '), ' ' + a + ' '])
             als.append(a)
         T.append((k, als, rng.random() < 0.3))
+    if len(T) >= 2 and rng.random() < 0.3:
+        # a directed collision: a name of one entry, written with other case and inner white space, as alias of another
+        i, j = rng.sample(range(len(T)), 2)
+        names = [T[i][0]] + [a for a in T[i][1] if a.strip()]
+        words = rng.choice(names).split()
+        if len(words) == 1:
+            words = words + [rng.choice(WORDS)]
+            T[i] = (T[i][0], T[i][1] + [' '.join(words)], T[i][2])
+        v = rng.choice(['  ', '\t', ' \t ', '\n', ' ']).join(w.upper() if rng.random() < 0.5 else w for w in words)
+        T[j] = (T[j][0], T[j][1] + [v], T[j][2])
     return T
 
 
@@ -137,4 +147,16 @@ def replay(payload):
         got = True
     except ValueError:
         got = False
-    return got == rule(T), 'accepted=%r rule=%r' % (got, rule(T))
+    if got != rule(T):
+        return False, 'accepted=%r rule=%r' % (got, rule(T))
+    le = imp()
+    try:
+        Lo = make_licensing(T, 'obj')
+        goto = True
+    except ValueError:
+        goto = False
+    if goto != got:
+        return False, 'LicenseSymbol objects accepted=%r, arbitrary objects accepted=%r' % (got, goto)
+    if got and queries(Lo, T, le) != queries(make_licensing(T, 'sym'), T, le):
+        return False, 'arbitrary objects answer differently from LicenseSymbol objects'
+    return True, 'accepted=%r rule=%r, same answers from both representations' % (got, rule(T))
